@@ -36,6 +36,7 @@ from harness.common.isolated import run_many
 
 PID = "C13"
 LEVEL = "proof"
+EXTRA_PROP_FILES = ["C13b"]  # whole runs of collections, N-step sums, generator-threaded loop
 REQUIRED_THEOREMS = [
     "em_step_formula", "milstein_step_formula", "semi_implicit_adds_same_increment",
     "zero_variance_is_deterministic", "one_draw_per_step", "milstein_term_is_textbook",
@@ -46,6 +47,11 @@ REQUIRED_THEOREMS = [
     "sys_euler_step_formula", "sys_milstein_step_formula", "milstein_term_is_textbook_ring",
     "milstein_eq_em_plus_correction", "stratonovich_drift_milstein", "variance_layout_per_field_full",
     "run_uses_successive_draws", "run_euler_documented", "run_milstein_documented", "run_implicit_documented",
+    # Props/C13b.lean
+    "collection_run_per_field", "collSys_hyps", "run_explicit_documented", "run_explicit_sum", "docIncr_sum",
+    "runGen_eq_run", "runGen_one_call_per_step", "runGen_explicit_total", "runGen_explicit_sum", "draws_spec",
+    "quad_variance_hyps", "quadVarDiff_is_derivative", "quad_runGen_sum", "quadSys_runGen_sum",
+    "collection_run_implicit_per_field", "field_run_per_component", "fieldSys_hyps",
 ]
 RULE = ("seed-derived (grid of any class incl. polar/spherical/cylindrical with non-uniform cell volumes, field type "
         "scalar/vector/tensor/collection, rate, variance kind scalar/per-component/per-field/field-dependent, "
@@ -1063,6 +1069,14 @@ def judge(ctx, leg, case, res, resp, mode):
     if val["rest"] != 1:
         ctx.disagree(leg, case, {"unconsumed": val["rest"]}, {"unconsumed": 1}, "stream accounting")
         return
+    # generator-threaded loop of the model (`Sys.runGen`, theorems of Props/C13b.lean): one call per step must leave
+    # exactly the one extra array in the generator and reproduce the list-fed run (which is compared with the real
+    # trajectory just below) entry for entry
+    if val.get("gen_rest") != 1 or val.get("gen_final") != val["final"]:
+        ctx.disagree(leg, case, {"gen_rest": val.get("gen_rest"), "gen_final": (val.get("gen_final") or [])[:8]},
+                     {"gen_rest": 1, "final": val["final"][:8]}, "generator-threaded model run (runGen) differs from the list-fed run")
+        return
+    ctx.hist("runGen", "one call per step, equals the list-fed run")
     mfin = dec(mode, val["final"])
     ok, dev = close_arrays(mfin, res["final"], RTOL_MODEL)
     if not ok:
